@@ -1667,6 +1667,15 @@ impl Tree {
 			vlog.reload_after_restore()?;
 		}
 
+		// And the versioned index: reopen the B+tree on the restored file. The open one
+		// still holds (and caches pages of) the index of the discarded timeline.
+		if let Some(ref versioned_index) = self.core.inner.versioned_index {
+			let comparator =
+				Arc::new(TimestampComparator::new(Arc::new(BytewiseComparator::default())));
+			let path = self.core.inner.opts.versioned_index_dir().join("index.bpt");
+			*versioned_index.write() = DiskBPlusTree::disk(&path, comparator)?;
+		}
+
 		// Step 2: Reload in-memory state to match restored files
 
 		// Create a new LevelManifest from the current path
